@@ -56,6 +56,16 @@ CLAIMED['C15'] = dict(
     technique="table extraction + constant evaluation, three-valued guard evaluation, CFG reachability (mutate-before-reject), who-may-write and sibling-parser comparison over the clang-resolved AST",
     ref="DESIGN.md section 4, C15")
 
+CLAIMED['C20'] = dict(
+    text="Structural necessary conditions for every one of the 56 extern \"C\" wrappers (set cross-checked against soplex_interface.h): the wrapper "
+         "calls exactly the C++ member(s) its name stands for on the handle and returns that result through casts only; parameter and status codes "
+         "are passed by cast; pointer parameters are subscripted only within a length the caller gave, vectors a C++ getter may have re-sized are "
+         "not read beyond their own dimension, string buffers are sized from the string actually copied; arguments reach the C++ parameter of the "
+         "same kind (lower/lhs, upper/rhs, objective, index) and every Rational is built from numerator and denominator of one pair at one index. "
+         "Not a proof of value equality through the C layer.",
+    technique="wrapper-table, bounded-subscript, argument-kind and num/denom-pairing rules over the clang-resolved AST of soplex_interface.cpp",
+    ref="DESIGN.md section 4, C20")
+
 NA = {
     'C10': "every clause quantifies over run-time numbers (residuals at rounding level, singular vs. well-conditioned, agreement of multi-rhs solves); "
            "no structural clause is both checkable and necessary (DESIGN.md section 5)",
